@@ -167,6 +167,7 @@ type prioMon struct {
 	errSeen          []error
 	handling         int // simple: Handle calls entered and not left
 	handled          map[Item]int
+	stolen           map[Item]bool // mode "thief": items taken by another reader of an input
 	stopReturned     bool
 	gracefulReturned bool
 	faulted          int // index of the divider call that misbehaved (0 = none)
@@ -217,6 +218,9 @@ func (m *prioMon) Hash() uint64 {
 	h = vrt.Mix(h, b, uint64(len(m.errSeen)))
 	if m.inHand != nil {
 		h = vrt.Mix(h, m.inHand.VrtKey())
+	}
+	for it := range m.stolen {
+		h += vrt.Mix(0x57, it.VrtKey())
 	}
 	if m.condAt >= 0 {
 		age := m.w.Clock - m.condAt
@@ -429,6 +433,12 @@ func (m *prioMon) onDeliver(w *vrt.World, ev *vrt.Event) {
 		m.f.fail("C02", "item %v of the input registered for priority %d delivered with priority %d", it, want, p)
 	}
 	rough := isRough(m.cfg)
+	if m.stolen[it] {
+		m.f.fail("C02", "item %v delivered although another reader of the input had taken it: delivered twice", it)
+	}
+	for m.stolen[Item{it.In, m.nextSeq[it.In], true}] {
+		m.nextSeq[it.In]++ // taken by the other reader of that input: not due any more
+	}
 	if m.cfg.Mode == "endless" || (it.In < len(m.cfg.N) && m.cfg.N[it.In] < 0) {
 		// identical payloads: only tag, capacity and shares are checked
 	} else if it.Seq != m.nextSeq[it.In] && !(rough && it.Seq > m.nextSeq[it.In] && it.Seq < m.written[it.In]) {
@@ -485,7 +495,7 @@ type prioEnv struct {
 }
 
 func newPrio(c Cfg, w *vrt.World) *explore.Instance {
-	m := &prioMon{cfg: c, w: w, P: c.P, H: c.H, condAt: -1, inflight: map[uint]int{}, reg: map[*vrt.ChanState]uint{}, origin: map[int]*vrt.ChanState{}, handled: map[Item]int{}, removed: map[*vrt.ChanState]bool{}, pendingReg: map[*vrt.ChanState]uint{}}
+	m := &prioMon{cfg: c, w: w, P: c.P, H: c.H, condAt: -1, inflight: map[uint]int{}, reg: map[*vrt.ChanState]uint{}, origin: map[int]*vrt.ChanState{}, handled: map[Item]int{}, stolen: map[Item]bool{}, removed: map[*vrt.ChanState]bool{}, pendingReg: map[*vrt.ChanState]uint{}}
 	m.f = failer{c, w}
 	np := len(c.P)
 	nx := 0
@@ -756,6 +766,21 @@ func newPrio(c Cfg, w *vrt.World) *explore.Instance {
 				}
 			})
 		}
+		if c.Mode == "thief" {
+			// ordinary fan-out: another goroutine receives from the highest priority's
+			// input channel too (at most two items, at any time)
+			vrt.Spawn("thief", func() {
+				for i := 0; i < 2; i++ {
+					vrt.Mark(uint64(i) + 0x7e1f)
+					it, ok := vrt.Recv2(inputs[0])
+					if !ok {
+						return
+					}
+					m.stolen[it] = true
+				}
+				vrt.Mark(0x7e1e)
+			})
+		}
 		// closer for prefilled inputs: closes them in any order at any time
 		if len(prefilled) > 0 && c.Mode != "open" && c.Mode != "saturate" && c.Mode != "alone" && c.Mode != "gracefulfirst" && c.Mode != "mixed" {
 			vrt.Spawn("closer", func() {
@@ -878,7 +903,7 @@ func newPrio(c Cfg, w *vrt.World) *explore.Instance {
 		if out == vrt.Spin {
 			return c.Prop + ": livelock: " + w.SpinInfo
 		}
-		return m.terminal(w, out, totalItems, divw)
+		return m.terminal(w, out, totalItems-len(m.stolen), divw)
 	}
 	inst.Goal = func(w *vrt.World) bool {
 		if c.Mode == "open" || c.Mode == "saturate" || c.Mode == "alone" || c.Mode == "stingy" || c.Mode == "withhold" || c.Mode == "endless" {
@@ -938,6 +963,11 @@ func newPrio(c Cfg, w *vrt.World) *explore.Instance {
 func (m *prioMon) terminal(w *vrt.World, out vrt.Outcome, totalItems int, divw *dividerWrap) string {
 	c := m.cfg
 	if (c.Mode == "open" || c.Mode == "saturate" || c.Mode == "withhold" || c.Mode == "endless" || c.Mode == "mixed") && !(isRough(c) && (c.Disc == "v1" || c.Disc == "s1")) {
+		if m.outClosed || m.errClosed {
+			// C19: the discipline has announced its termination (it must not have: C07
+			// reports that) - whatever the reason, no goroutine of it may stay behind
+			return m.libAlive(w)
+		}
 		return ""
 	}
 	if c.Mode == "alone" {
@@ -1019,7 +1049,7 @@ func (m *prioMon) terminal(w *vrt.World, out vrt.Outcome, totalItems int, divw *
 	if c.Disc == "s2" || c.Disc == "s1" {
 		for i := range m.P {
 			for k := 0; k < m.written[i]; k++ {
-				if m.handled[Item{i, k, true}] != 1 {
+				if m.handled[Item{i, k, true}] != 1 && !m.stolen[Item{i, k, true}] {
 					if want(c, "C02") {
 						return fmt.Sprintf("C02: Handle was invoked %d times for item %d.%d", m.handled[Item{i, k, true}], i, k)
 					}
